@@ -306,8 +306,9 @@ static void cases_for_matrix(const tmat_t *T, int vkind, int salt) {
         }
     } else if (!strcmp(PROP, "C06")) {
         if (m.struct_nonsing && m.num_nonsing) return;
-        for (int g = 0; g < ng; g++) for (int drv = 1; drv <= 2; drv++) for (int P = 1; P <= 2; P++) for (int ord = 0; ord < 2; ord++) {
-            fcfg_default(&c); grid_cfg(SW.grid, g, n, &c); c.driver = drv; c.nprocs = P; c.ordering = ord ? 1 : 0; c.nrhs = 1;
+        /* the expert driver also with diag_pivot_thresh = 0 (a zero on the diagonal must still not be taken while the column has nonzero candidates) */
+        for (int g = 0; g < ng; g++) for (int drv = 1; drv <= 2; drv++) for (int P = 1; P <= 2; P++) for (int ord = 0; ord < 2; ord++) for (int ui = 0; ui < (drv == DRV_GSSVX ? 2 : 1); ui++) {
+            fcfg_default(&c); grid_cfg(SW.grid, g, n, &c); c.driver = drv; c.nprocs = P; c.ordering = ord ? 1 : 0; c.nrhs = 1; c.u = ui ? 0.0 : 1.0;
             if (drv == DRV_GSSVX) c.fact = (g & 1) ? EQUILIBRATE : DOFACT;
             run_and_judge(T, &m, vkind, salt, &c);
         }
